@@ -44,7 +44,7 @@ def run(ctx):
     if stats["faults"] > 3:
         raise common.Inconclusive("too many harness faults in the pipelining run: %s" % stats)
     res2, distinct, classes, samples2 = c08.judge(ctx, obs2, stats, prop="C07")
-    # the send-side consequence of known finding F1, reproduced with gates: after an accepted deselection a data send still passes
+    # the send-side consequence of finding F1 (fixed by cbc5287), provoked with gates: after an accepted deselection no data send may pass
     for line in open(obs2):
         if '"f1gated"' in line:
             d = json.loads(line)
